@@ -61,6 +61,9 @@ func (f *Frontend) RemoveAuthBackendExcept(used map[string]bool) {
 			i++
 		}
 	}
+	if i < len(bindList) {
+		f.changed = true
+	}
 	f.AuthProxy.BindList = bindList[:i]
 }
 
